@@ -516,6 +516,7 @@ func genFlushCase(rt *rapid.T) flushCase {
 func init() {
 	replayRegistrars = append(replayRegistrars, func() {
 		registerReplay("C14/rounds", runFlushRoundsCase)
+		registerReplay("C14/after-rejected-frame", runRejectedFlushCase)
 		registerReplay("C14/schedules", func(c flushCase) *fail { return runFlushCase(c, nil) })
 		registerReplay("C14/enumerated", func(c flushCase) *fail { return runFlushCase(c, nil) })
 	})
@@ -525,6 +526,24 @@ func TestC14(t *testing.T) {
 	h := begin(t, "C14")
 	defer h.Finish()
 	env := h.Env
+	// the tag of a frame the receiver rejected is idle
+	rapidCases(h, "after-rejected-frame", env.PerShard(env.Pick(1600, 60000)), func(rt *rapid.T) rejectedFlushCase {
+		var c rejectedFlushCase
+		for i := rapid.IntRange(1, 4).Draw(rt, "n"); i > 0; i-- {
+			c.Frames = append(c.Frames, rejectedFrame{
+				Kind: rapid.SampledFrom([]string{"short", "short", "overrun", "unknown-type", "valid"}).Draw(rt, "kind"),
+				Type: rapid.SampledFrom([]uint8{refcodec.Twrite, refcodec.Tread, refcodec.Twalk, refcodec.Tgetattr, refcodec.Tsetattr, refcodec.Tattach, refcodec.Tlopen}).Draw(rt, "type"),
+				Tag:  rapid.SampledFrom([]uint16{0, 1, 7, 0x4001, 0xfffe, refcodec.NOTAG}).Draw(rt, "tag"),
+				Then: rapid.SampledFrom([]string{"flush", "reuse", "flush-reuse", "reuse-flush", "none"}).Draw(rt, "then")})
+		}
+		return c
+	}, func(c rejectedFlushCase) *fail {
+		h.Case(evid.HashJSON(c), c.Frames[0].Kind != "valid", "after-rejected-frame")
+		if h.WantSample("after-rejected-frame") {
+			h.Sample("after-rejected-frame", c)
+		}
+		return runRejectedFlushCase(c)
+	})
 	// enumerated: every target x hold position x every order of {F1, F2 (chained or not), R, U}
 	if env.Shard == 0 {
 		evsets := [][]string{
